@@ -20,6 +20,32 @@ CLAIMS = {
    text="ExprWriter.tla models write::Expression as a builder machine: the meaning of every op_* call in the vocabulary of the reader-side decoding spec (OpCodec.tla), the emission as coded (short forms, GNU opcodes before v5, branch displacements) and which requests have no encoding. TLC enumerates every call sequence up to 2-4 calls over three alphabet slices (~100 calls with boundary operands, references to a base type / earlier / later / other-unit entries, nested entry_value, branches to every index) x encodings x contexts (DIE attribute, location list, CFI) and proves Decode(Emit(calls)) = Mean(calls) and predicted size = emitted length on the model; each sequence is replayed on the real writer, read back, and decoded operations, reference targets (by entry name), branch targets (by operation index), the entries/attributes following the expression and the evaluation result (Expr.tla) are compared. Random 3-40 call sequences are validated by ExprWriterTrace, which decodes the recorded bytes with OpCodec.",
    note="Trusted: TLC, OpCodec/Expr specs (bound to the reader by C07), harness name resolution of reference offsets. A forward unit-relative reference may be refused or encoded; evaluation equivalence only for reference-free programs.",
    technique="TLA+ builder machine ExprWriter composed with OpCodec/Expr; TLC-enumerated call sequences replayed on the writer + TLC trace validation of emitted bytes"),
+
+ "C06": dict(
+   cat="model_checking", ref="DESIGN.md §5 C06",
+   text="CfiExec.tla models UnwindContext + UnwindTable as coded (row stack, initial_rule optimisation, one action per call-frame instruction, limits) next to a reference semantics written from DWARF 6.4 without the storage optimisations; TLC checks in every explored state that the machine refines the reference, that a limit error is reported exactly where the reference needs more rows/rules than the storage has, and that rows are contiguous and end at the FDE end. Every CIE x FDE program over the DW_CFA alphabet up to the bound is replayed on four storages (2 rows/2 rules, 3/1, heap 4/192, unbounded) and both vendors, with an alignment-factor x address-size grid of 64-bit boundary operands and directed programs hitting 192 rules / 4 rows exactly and by one over; rows (start, end, CFA, every register rule, args size) or the specific error are compared. next_row events recorded from random long programs (address sizes 1/2/4/8, both byte orders) and from the self fixture's .eh_frame are validated by CfiExecTrace.",
+   note="Exhaustive up to the stated bounds; beyond that sampled by trace validation. Corpus FDE instruction lists are hints taken from gimli's instructions() iterator. Error kinds other than StackFull / TooManyRegisterRules / CfiInstructionInInvalidContext are compared as 'an error'.",
+   technique="TLA+ machine CfiExec with reference semantics (refinement checked by TLC); TLC-generated sections replayed on the code + TLC trace validation of recorded rows"),
+ "C10": dict(
+   cat="model_checking", ref="DESIGN.md §5 C10",
+   text="Reader.tla is a cursor model of the Reader trait with no reader-kind parameter (so all kinds must match one spec); TLC explores it exhaustively for small buffers and <= 3 handles, checking window-safety (0 <= start <= end <= Len), view, partition and offset-id properties on every transition; every transition is replayed on six reader kinds (EndianSlice, EndianRcSlice, EndianArcSlice, EndianReader over a custom CloneStableDeref buffer, RelocateReader with identity relocation over slice and Rc) comparing the result, (offset_from, len, bytes, slice pointer relative to the buffer, offset-id position, borrowed) and buffer reference counts incl. teardown; random 400-1000 step histories on 64-4096 byte buffers with clone/split/drop in any order and whole-section parses (DIEs, line programs) under every kind are validated by ReaderTrace.",
+   note="Exhaustive for the listed buffers/slots/arguments; larger buffers by trace validation. Memory safety is observed through pointer ranges, reference counts and a poisoning buffer, not through a sanitizer (no Miri/ASan run is wired in).",
+   technique="TLA+ cursor model Reader; TLC state-graph enumeration replayed on six reader kinds + TLC trace validation of random histories"),
+ "C17": dict(
+   cat="model_checking", ref="DESIGN.md §5 C17",
+   text="Lookup.tla specifies the split-DWARF hash index (v2/v5) with find as coded, package unit assembly, the DWARF 5 name index (buckets, hash chains, entry pool, parent chains, CU/TU resolution), aranges, pubnames/pubtypes, str_offsets/addr indexing and the section loader; TLC proves lookup-as-coded = exhaustive scan on every table of the bounded models (hash tables of 1/2/4/8 slots at every load, name indexes <= 4 names, every section-kind subset, every loader API x failing id) and generates one replay case per state that gimli must answer within the allowed set; lookups recorded on random tables of 10^3-10^4 entries and on the compiler-built corpus sections are validated event by event by LookupTrace, which re-encodes the logged table.",
+   note="Exhaustive for the stated bounds; larger tables by trace validation. No comparison with tool dumps (llvm-dwarfdump): corpus sections are inputs judged by the spec. Package-unit equality is decided on section contents.",
+   technique="TLA+ spec Lookup (find-as-coded = scan proved by TLC); TLC-generated tables replayed on the code + TLC trace validation"),
+ "C18": dict(
+   cat="model_checking", ref="DESIGN.md §5 C18",
+   text="Reloc.tla gives a field-class schema (addr, secoffset, unitoffset, addrlen, plain) and TLA+ encoders for a unit (v2-5, type unit), line programs v4/v5, .debug_ranges, .debug_rnglists and a CIE/CIE/FDE .debug_frame, with RelocateReader semantics over the Reader model and RelocateWriter semantics; TLC checks read transparency for every relocation set of <= 2/3 relocatable fields x 3 addends and Apply(recorded) = direct for every writer script; each case is replayed on gimli (RelocateReader over an interposing reader that logs which primitive read each offset vs. pre-applied bytes; recording RelocateWriter vs. EndianVec). gimli's real writers run with symbolic addresses through a recording writer are validated by RelocTrace, including that the relocated offsets are exactly those read through relocatable primitives. One open known finding (.debug_frame CIE pointer read with a plain primitive) is reported as KNOWN-FINDING.",
+   note="Structures are the spec's own small encodings (one per family); .eh_frame pointer encodings, .debug_loc(lists) on the read side, aranges/names/macro/str_offsets/addr are not encoded. Relocations are placed only on addr/secoffset fields.",
+   technique="TLA+ field-class schema + relocation semantics; TLC cases replayed through an interposing Reader / recording Writer + TLC trace validation"),
+ "C20": dict(
+   cat="model_checking", ref="DESIGN.md §5 C20",
+   text="Over a pool of 10 CIE/FDE programs (succeeding with 0/1/many initial rules, failing in the CIE, failing mid-FDE, overflowing rows / rules, leaving remembered rows behind) every history of uses of ONE model UnwindContext per storage (driven to completion or abandoned by unwind_info_for_address) is explored by TLC with the model carrying state across uses exactly as the code does; invariant: each use observes what a new context observes. Reuse.tla does the same for entry buffers reused across entries with 0-3 attributes and across errors, cursor clones at every position continued in both orders, EntriesTree::root after every partial traversal, and AbbreviationsCache under {none, Duplicates, All} x unit sequences over 7 abbreviation offsets incl. invalid ones. All cases are replayed on reused and on fresh state; random histories on long-lived contexts are validated by the trace spec.",
+   note="Exhaustive for histories <= 2 (quick) / 3 (thorough) over 20 step kinds, DIE streams <= 3/4 tokens, unit sequences <= 3; longer histories by random traces. LineRows resume and other iterator kinds are covered by C04, not here.",
+   technique="TLA+ history-composition models (persistent model state next to fresh state); TLC-enumerated histories replayed on the code + TLC trace validation"),
 }
 NOT_YET = "check not built yet in this session (see DESIGN.md §9 build order); not claimed"
 def main():
